@@ -5,6 +5,7 @@ import (
 	"io"
 	"net/http"
 	"net/http/httptest"
+	"os"
 	"strings"
 	"sync"
 
@@ -73,9 +74,29 @@ func (h *httpStore) RemoveBlobs(ctx context.Context, blobs []blob.Ref) error {
 }
 func (h *httpStore) Close() error {
 	h.cl.Close()
-	h.ts.CloseClientConnections()
-	h.ts.Close()
+	if h.ts != nil {
+		h.ts.CloseClientConnections()
+		h.ts.Close()
+	}
 	return nil
+}
+
+// memTransport serves a client's requests by calling the handler directly.
+type memTransport struct{ h http.Handler }
+
+func (t memTransport) RoundTrip(req *http.Request) (*http.Response, error) {
+	sreq := req.Clone(req.Context())
+	if sreq.Body == nil {
+		sreq.Body = http.NoBody
+	}
+	sreq.RequestURI = req.URL.RequestURI()
+	sreq.RemoteAddr = "192.0.2.1:1234"
+	rec := httptest.NewRecorder()
+	t.h.ServeHTTP(rec, sreq)
+	sreq.Body.Close()
+	res := rec.Result()
+	res.Request = req
+	return res, nil
 }
 
 // NewHTTPStore is the "http" node outside a tree: the protocol handlers over kid, a pkg/client in front.
@@ -122,11 +143,24 @@ func newHTTPStoreT(kid blobserver.Storage, withHaveCache bool, tamper func(body 
 			http.Error(w, "unsupported", http.StatusBadRequest)
 		}
 	})
-	ts := httptest.NewServer(mux)
-	cl, err := client.New(client.OptionNoExternalConfig(), client.OptionServer(ts.URL+pfx), client.OptionAuthMode(auth.None{}))
+	// Quick tier: a real loopback server (net/http's transport and server are part of what is exercised).
+	// Thorough tier: hundreds of thousands of these per run would exhaust the ephemeral ports (closed client
+	// connections linger in TIME_WAIT), so the client's transport hands the request to the mux in memory.
+	var ts *httptest.Server
+	base := "http://verif.invalid"
+	if os.Getenv("VERIF_TIER") != "thorough" || os.Getenv("VERIF_HTTP_TCP") != "" {
+		ts = httptest.NewServer(mux)
+		base = ts.URL
+	}
+	cl, err := client.New(client.OptionNoExternalConfig(), client.OptionServer(base+pfx), client.OptionAuthMode(auth.None{}))
 	if err != nil {
-		ts.Close()
+		if ts != nil {
+			ts.Close()
+		}
 		return nil, err
+	}
+	if ts == nil {
+		cl.SetHTTPClient(&http.Client{Transport: memTransport{mux}})
 	}
 	cl.Logger.SetOutput(io.Discard)
 	if withHaveCache {
